@@ -2,6 +2,7 @@ import Gofasta.Gen.Cols
 import Gofasta.Model.Closest
 import Gofasta.Model.Snps
 import Gofasta.Model.Updown
+import Gofasta.Model.Sam
 /-
 The per-column code of the comparison loops, regenerated from the Go source on every run by the go/ast translator
 `cols.go` (harness) into `Gen/Cols.lean`: for `rawDistance`, `snpDistance`, `tn93Distance` the whole loop body as a
@@ -85,6 +86,16 @@ theorem snpsRowEnc_cons (i r q : Nat) (rs qs : List Nat) :
       (if (snps_getSNPs r q).getD 0 false then [(i + 1, dec r, dec q)] else []) ++ snpsRowEnc (i + 1) rs qs := by
   rw [snps_append]; simp only [snpsRowEnc, List.getD_cons_zero]
   by_cases h : encDiffer r q = true <;> simp [h]
+
+/-- `sam.checkArgs` (the window check of toMultiAlign and toPairAlign), translated statement by statement from the source:
+it refuses exactly the windows the model refuses and otherwise returns the model's (start, end, trim) -/
+theorem checkArgs_translated (L : Nat) (s e : Int) :
+    sam_checkArgs (L : Int) s e = (Model.checkArgs L s e).map fun r => ((r.1 : Int), (r.2.1 : Int), r.2.2) := by
+  unfold sam_checkArgs Model.checkArgs
+  by_cases hs : s = -1 <;> by_cases he : e = -1 <;> simp only [hs, he, decide_true, decide_false, if_true, if_false,
+    Bool.false_eq_true, bne_self_eq_false, Bool.or_false, Bool.false_or]
+  all_goals (repeat' split) <;> simp_all <;> omega
+
 
 /-- not vacuous: the two classes of column that the tests separate -/
 example : closest_rawDistance 136 72 = [1, 1] ∧ closest_rawDistance 136 136 = [0, 1] ∧ closest_rawDistance 136 240 = [0, 0] := by decide
